@@ -66,6 +66,7 @@ class AddInteraction(Contract):
         nodes = [u, v, qx, qy, qx2, qy2]
         pairs = [(u, v), (qx, qy)]
         ctx.feas_skip = {'events', 'link', 'hint'}
+        ctx.bounded = self.bound_n is not None
         strong = variant.get('inv') == 'strong'
         if removal:
             spec.inv_assume(ctx, g, view0, nodes, pairs, shape_pairs=[(v, u), (qy, qx), (qx2, qy2)], k=1 if strong else 2)
@@ -73,12 +74,8 @@ class AddInteraction(Contract):
             from . import accum
             accum.inv_assume(ctx, g, view0, nodes, pairs, shape_pairs=[(v, u), (qy, qx), (qx2, qy2)])
         if self.bound_n is not None:
+            ctx.full_hyps = getattr(self, 'full_hyps', False)
             # refutation mode only: a small closed world (any model is still a model of the unbounded VC)
-            a_, b_ = z3.Consts('a?cw b?cw', Node)
-            C = g['Cell_' + g.mainw()]
-            ctx.assume(z3.ForAll([a_, b_], z3.Implies(C[a_][b_] != 0, z3.Or(*[z3.Or(z3.And(a_ == p, b_ == q_), z3.And(a_ == q_, b_ == p))
-                                                                              for (p, q_) in pairs]))), 'shape')
-            ctx.assume(z3.ForAll([a_], z3.Implies(g['NodeIn'][a_], z3.Or(*[a_ == n_ for n_ in nodes]))), 'shape')
         if t is not None and e is not None:
             ctx.assume(e > t)                       # D23: e <= t is outside the contract
         pre = g.snapshot()
@@ -262,19 +259,97 @@ class AddInteraction(Contract):
         return {'outcome': out_txt, 'violated': violated, 'pre': pre_dump, 'post': graph_dump(G),
                 'call': 'add_interaction(%r, %r, %r, %r)' % (u, v, t, e)}
 
+    def pre_state_problems(self, engine, G):
+        """is a concrete graph a legal pre-state, i.e. does it satisfy the whole invariant (goal forms of I1, I2,
+        I3, I4 weak, I5)?  Counter-models whose pre-state is not legal are discarded, never reported."""
+        from pyvc.concrete import NodeMap, abstract_graph, check_concrete
+        nm = NodeMap()
+        empty = engine.empty_attr()
+        g = abstract_graph(G, nm, 'self', {}, empty)
+        probs = list(g.problems)
+        U = list(nm.n2z.values())
+        q, op = fresh('qq', Int), fresh('qop', Op)
+        hy = nm.distinct([], empty)
+        removal = bool(G.edge_removal)
+        for x in U:
+            for y in U:
+                goals = {}
+                goals.update({'shape.' + k: f for k, f in spec.shape_goals(g, x, y, U[0], U[-1]).items()})
+                goals.update({'snapkeys.' + k: f for k, f in spec.snapkeys_goals(g, x, y, q).items()})
+                goals.update({'tte.' + k: f for k, f in spec.tte_goals(g, q).items()})
+                if removal:
+                    goals.update({'canon.' + k: f for k, f in spec.canon_goals(g, x, y).items()})
+                    goals.update({'events.' + k: f for k, f in spec.events_goals(g, x, y, 2, q, op).items()})
+                else:
+                    from . import accum
+                    goals.update({'events.' + k: f for k, f in accum.events_goals(g, x, y, q, op).items()})
+                for k, f in goals.items():
+                    bad, _ = check_concrete(hy, f, 5000)
+                    if bad:
+                        probs.append('%s at (%s,%s)' % (k, x, y))
+        # I3 in full (python): snapshot ids are the inhabited instants, counts are exact (removal mode)
+        if removal:
+            rep = G._succ if G.is_directed() else G._adj
+            pres = {}
+            seen = set()
+            for a, nb in rep.items():
+                for b, dd in nb.items():
+                    if id(dd) in seen:
+                        continue
+                    seen.add(id(dd))
+                    for iv in dd.get('t', []):
+                        for k in range(iv[0], iv[1] + 1):
+                            pres[k] = pres.get(k, 0) + 1
+            if pres != dict(G.snapshots):
+                probs.append('I3: snapshots %r != inhabited instants with counts %r' % (dict(G.snapshots), pres))
+        return probs
+
     def replay_model(self, engine, m, call, n):
+        """A counter-model is turned into a HISTORY through the real public API: the model's timelines are
+        rebuilt by add_interaction calls on an empty graph (so every state visited is reachable by
+        construction), then the model's call is made; the contract's clauses are evaluated on the real pre/post
+        states of EVERY call and the first call that violates one is the replayed failing input."""
         from pyvc.concrete import model_to_desc
+        import dynetx as dn
         ints = [x for x in (call.t, call.e) if x is not None]
-        desc = model_to_desc(m, call.pre, self.cls, n, ints)
+        desc = model_to_desc(m, call.pre, self.cls, n, ints, focus=[call.u, call.v, call.qx, call.qy])
         ids = desc['node_ids']
+
         def nid(z):
             return ids[str(m.eval(z, model_completion=True))]
         u, v = nid(call.u), nid(call.v)
         t = m.eval(call.t, model_completion=True).as_long() if call.t is not None else None
         e = m.eval(call.e, model_completion=True).as_long() if call.e is not None else None
-        for x in (u, v):
-            pass
-        rep = self.replay(engine, desc, (u, v, t, e))
-        rep['state'] = {k: v_ for k, v_ in desc.items() if k != 'node_ids'}
-        rep['args'] = [u, v, t, e]
+        removal = desc['edge_removal']
+        minus = set((q, a, b) for (q, a, b, op) in desc['events'] if op == '-')
+        plus = set((q, a, b) for (q, a, b, op) in desc['events'] if op == '+')
+        calls = []
+        for (a0, b0, tl) in desc['edges']:
+            for (s_, e_) in tl:
+                a, b = a0, b0
+                if not call.pre.directed and ((s_, b0, a0) in plus or (e_ + 1, b0, a0) in minus):
+                    a, b = b0, a0          # the model logged this run under the other endpoint order
+                if e_ - s_ > 60 or e_ < s_:
+                    raise ValueError('model timeline not usable for a history')
+                if not removal:
+                    calls += [(a, b, q, None) for q in range(s_, e_ + 1)]
+                elif s_ == e_ and not ((e_ + 1, a, b) in minus or (e_ + 1, b, a) in minus):
+                    calls.append((a, b, s_, None))
+                else:
+                    calls.append((a, b, s_, e_ + 1))
+        return self.replay_history(engine, removal, calls + [(u, v, t, e)])
+
+    def replay_history(self, engine, removal, calls):
+        import dynetx as dn
+        G = getattr(dn, self.cls)(edge_removal=removal)
+        rep = None
+        for k, args in enumerate(calls):
+            rep = self.replay(engine, None, tuple(args), G=G)
+            if rep['violated']:
+                break
+        rep['history'] = [list(c) for c in calls[:k]]
+        rep['args'] = list(calls[k])
+        rep['edge_removal'] = removal
+        rep['class'] = self.cls
+        rep['calls_in_history'] = len(calls)
         return rep
